@@ -82,7 +82,10 @@ func (st *State) enabled(g *G) bool {
 			if sc.send && st.sendReady(sc.ch, g) {
 				return true
 			}
-			if !sc.send && st.recvReady(sc.ch, g) {
+			st.inSelect = len(w.sel) > 1
+			r := !sc.send && st.recvReady(sc.ch, g)
+			st.inSelect = false
+			if r {
 				return true
 			}
 		}
@@ -110,7 +113,24 @@ func (st *State) enabled(g *G) bool {
 }
 
 func (st *State) timerReady(c *ChanObj) bool {
-	return c.Timer && (st.timersOn || c.Ready) && !c.Fired
+	if !c.Timer || c.Fired {
+		return false
+	}
+	if c.Ready {
+		return true
+	}
+	if !st.timersOn {
+		return false
+	}
+	if st.timerLimit > 0 {
+		// short plain sleeps of the library (delayed close, notification delay) elapse; a timer that is one case of a
+		// select next to other channels is a cancellable timeout (handshake timer): it fires only when the harness says so
+		if st.inSelect {
+			return false
+		}
+		return c.TimerD != nil && c.TimerD.Const && signed(64, c.TimerD.U) <= st.timerLimit
+	}
+	return true
 }
 
 func (st *State) recvReady(c *ChanObj, self *G) bool {
@@ -504,7 +524,10 @@ func (st *State) execSelect(g *G, fr *Frame, x *ssa.Select) bool {
 		if sc.send && st.sendReady(sc.ch, g) {
 			ready = append(ready, i)
 		}
-		if !sc.send && st.recvReady(sc.ch, g) {
+		st.inSelect = len(x.States) > 1
+		rr := !sc.send && st.recvReady(sc.ch, g)
+		st.inSelect = false
+		if rr {
 			ready = append(ready, i)
 		}
 	}
